@@ -196,6 +196,20 @@ func parseVMCase(line string) (*vmCase, error) {
 
 func u64p(v uint64) *uint64 { return &v }
 
+// unpaidPushCosts: for the opcodes that push a not-yet-paid item with deferred cost, the cost
+// 8+len of that item in this case (upper bound 16 for the numeric ones).
+func (k *vmCase) unpaidPushCosts() map[string]int64 {
+	m := map[string]int64{"PROGRAM": 8 + int64(len(k.code)), "ENTRYID": 8 + int64(len(k.entryID)),
+		"AMOUNT": 16, "INDEX": 16, "BLOCKHEIGHT": 16, "SIZE": 16}
+	if k.assetID != nil {
+		m["ASSET"] = 8 + int64(len(*k.assetID))
+	}
+	if k.spentOutputID != nil {
+		m["OUTPUTID"] = 8 + int64(len(*k.spentOutputID))
+	}
+	return m
+}
+
 var failSeen = map[string]int{}
 
 // failCapped records a direct-oracle failure and counts it per signature in the distribution.
@@ -327,12 +341,22 @@ type traceSink struct {
 	prevDepth  int
 	childSeen  bool
 	phiReports []phiReport
+
+	// every instruction line, tracking or not (C07 direct oracles)
+	minLimit   int64            // most negative runLimit seen on an instruction line
+	minLine    string           // that line
+	maxLimit0  int64            // largest runLimit seen at depth 0
+	unpaidLen  map[string]int64 // opcode name -> cost 8+len of the item it pushes with deferred cost
+	allowance  int64            // Σ over child instructions that fail in the deferred charge after such a push (the KNOWN defect)
+	cpAllow    int64            // the same, since the last depth-0 instruction line
+	knownEvent int
 }
 
 type phiReport struct {
 	op    string
 	delta int64 // Φ before − Φ after the instruction (whole CHECKPREDICATE incl. child for that op)
 	child bool
+	allow int64 // known-defect allowance accrued inside this instruction (CHECKPREDICATE children)
 }
 
 func stackCostOf(st [][]byte) int64 {
@@ -360,6 +384,7 @@ func (t *traceSink) Write(p []byte) (int, error) {
 		}
 		if bytes.HasPrefix(line, []byte("vm ")) {
 			t.steps++
+			t.scanVM(line)
 			if t.track {
 				t.trackVM(line)
 			}
@@ -385,6 +410,33 @@ func (t *traceSink) Write(p []byte) (int, error) {
 	return len(p), nil
 }
 
+// scanVM looks at every instruction line: negative run limits, the largest depth-0 run limit, and
+// the occurrences of the KNOWN gas-inflation mechanism (a child-VM instruction that pushes an unpaid
+// context item with deferred cost and then fails in the deferred charge: 1 <= limit <= 8+len(item)).
+func (t *traceSink) scanVM(line []byte) {
+	f := strings.Fields(string(line))
+	if len(f) < 7 {
+		return
+	}
+	depth, _ := strconv.Atoi(f[1])
+	limit, _ := strconv.ParseInt(f[5], 10, 64)
+	if limit < t.minLimit {
+		t.minLimit = limit
+		t.minLine = string(line)
+	}
+	if depth == 0 {
+		if limit > t.maxLimit0 {
+			t.maxLimit0 = limit
+		}
+		return
+	}
+	if c, ok := t.unpaidLen[f[6]]; ok && limit >= 1 && limit <= c {
+		t.allowance += c
+		t.cpAllow += c
+		t.knownEvent++
+	}
+}
+
 // trackVM is called for every instruction line, before sinceVM is reset.
 func (t *traceSink) trackVM(line []byte) {
 	f := strings.Fields(string(line)) // vm D pc P limit L OP [data]
@@ -405,8 +457,9 @@ func (t *traceSink) trackVM(line []byte) {
 			t.curStack = t.sinceVM
 		}
 		phi := limit + stackCostOf(t.curStack)
-		t.phiReports = append(t.phiReports, phiReport{t.prevOp, t.prevPhi - phi, t.childSeen})
+		t.phiReports = append(t.phiReports, phiReport{t.prevOp, t.prevPhi - phi, t.childSeen, t.cpAllow})
 	}
+	t.cpAllow = 0
 	t.prevPhi = limit + stackCostOf(t.curStack)
 	t.prevOp = op
 	t.prevValid = true
